@@ -46,6 +46,9 @@ pub struct Case {
     pub pre: u8,
     pub index_length: u8,
     pub ops: Vec<Op>,
+    /// the destination accepts at most this many bytes per write call
+    #[serde(default)]
+    pub chunk: Option<u16>,
 }
 
 pub fn check(c: &Case) -> Verdict {
@@ -57,7 +60,7 @@ pub fn check(c: &Case) -> Verdict {
         P0::Beyond(k) => c.prefill.len() as u64 + k as u64 + 1,
     };
     let orig = c.prefill.clone();
-    let dest = Dest::new(c.prefill.clone(), p0);
+    let dest = Dest::new(c.prefill.clone(), p0).with_max_write(c.chunk.map(|n| n as usize));
     let mut dest_handle = dest.clone();
     let mut buffer = Buffer::with_capacity(0);
     buffer.write_all(&vec![0x5a; c.pre as usize]);
@@ -214,8 +217,9 @@ pub fn case_strategy() -> impl Strategy<Value = Case> {
         0u8..40,
         0u8..9,
         proptest::collection::vec(op_strategy(), 0..40),
+        proptest::option::weighted(0.35, prop_oneof![Just(1u16), 1u16..16, 1u16..300]),
     )
-        .prop_map(|(prefill, p0, pre, index_length, ops)| Case { prefill, p0, pre, index_length, ops })
+        .prop_map(|(prefill, p0, pre, index_length, ops, chunk)| Case { prefill, p0, pre, index_length, ops, chunk })
 }
 
 #[derive(Debug, Clone, PartialEq, Eq, Hash, Serialize, Deserialize)]
@@ -228,6 +232,9 @@ pub struct DumpCase {
     /// start the target with an empty environment / no arguments (empty raw streams)
     #[serde(default)]
     pub empty_env: bool,
+    /// the destination accepts at most this many bytes per write call
+    #[serde(default)]
+    pub chunk: Option<u16>,
 }
 
 /// Dump level: whole dumps into a pre-filled destination positioned anywhere.
@@ -260,7 +267,7 @@ pub fn check_dump(c: &DumpCase) -> Verdict {
     let orig = c.prefill.clone();
     let mut w = make_writer(t.pid, &opts);
     let fault = c.fail_at.map(|k| Fault::ErrAt(k as u64)).unwrap_or(Fault::None);
-    let mut dest = Dest::new(orig.clone(), p0).with_fault(fault);
+    let mut dest = Dest::new(orig.clone(), p0).with_fault(fault).with_max_write(c.chunk.map(|n| n as usize));
     let out = run_dump(&mut w, &mut dest);
     let data = dest.data();
     macro_rules! bad {
@@ -302,7 +309,9 @@ pub fn check_dump(c: &DumpCase) -> Verdict {
                 let inner = dest.0.borrow();
                 let far = inner.log.iter().filter_map(|o| if let crate::vcore::dest::DestOp::Write { at, len } = o { Some(at + len) } else { None }).max().unwrap_or(p0);
                 let written = &written[..((far - p0) as usize).min(written.len())];
-                if far > p0 {
+                // with a destination that takes data in pieces an injected error can cut a flush in the
+                // middle; the consistency predicate is about completed flushes (C10) and is not applied then
+                if far > p0 && c.chunk.is_none() {
                     if let Some(p) = crate::props::c10::snapshot_problem(written) {
                         bad!(format!("aborted-image:{}", p.sig), "after an aborted dump the destination from p0 on is not a consistent truncated minidump: {}", p.detail);
                     }
@@ -326,9 +335,9 @@ pub fn run(ctx: &mut LaneCtx) {
         SubSpec {
             name: "dump-level",
             cases: (480, 10_000),
-            rule: "whole dumps of generated targets (C01 scenarios) into a destination pre-filled with random bytes and positioned at 0/1/mid/len/beyond, fault free or with an I/O error injected at a generated destination call; oracle = on success destination[p0..p0+len) equals the returned image, nothing before p0 or beyond the image changes, final position p0+len; on abort nothing before p0 changes and what was written is a consistent truncated image; non-trivial = p0 > 0; distinct = hash of case",
-            strategy: (crate::props::c01::case_strategy(6), proptest::collection::vec(any::<u8>(), 0..5000), prop_oneof![Just(P0::Zero), Just(P0::One), Just(P0::Mid), Just(P0::Len), (0u8..40).prop_map(P0::Beyond)], proptest::option::weighted(0.4, any::<u8>()), any::<bool>())
-                .prop_map(|(scenario, prefill, p0, fail_at, empty_env)| DumpCase { scenario, prefill, p0, fail_at, empty_env })
+            rule: "whole dumps of generated targets (C01 scenarios) into a destination pre-filled with random bytes and positioned at 0/1/mid/len/beyond and optionally accepting only a bounded number of bytes per write call, fault free or with an I/O error injected at a generated destination call; oracle = on success destination[p0..p0+len) equals the returned image, nothing before p0 or beyond the image changes, final position p0+len; on abort nothing before p0 changes and what was written is a consistent truncated image; non-trivial = p0 > 0; distinct = hash of case",
+            strategy: (crate::props::c01::case_strategy(6), proptest::collection::vec(any::<u8>(), 0..5000), prop_oneof![Just(P0::Zero), Just(P0::One), Just(P0::Mid), Just(P0::Len), (0u8..40).prop_map(P0::Beyond)], proptest::option::weighted(0.4, any::<u8>()), any::<bool>(), proptest::option::weighted(0.35, prop_oneof![1u16..64, 64u16..5000]))
+                .prop_map(|(scenario, prefill, p0, fail_at, empty_env, chunk)| DumpCase { scenario, prefill, p0, fail_at, empty_env, chunk })
                 .boxed(),
             max_shrink_iters: 100,
             log_current: true,
@@ -340,7 +349,7 @@ pub fn run(ctx: &mut LaneCtx) {
         SubSpec {
             name: "dirsection-history",
             cases: (40_000, 2_000_000),
-            rule: "histories (<=40 ops) of grow / flush / flush-with-entry / entry-only on DirSection over an in-memory Write+Seek destination pre-filled with random bytes and positioned at 0, 1, mid, len or beyond len; file model checked after every op; non-trivial = starting position > 0 and a directory entry emitted after >= 2 flushes; distinct = hash of case",
+            rule: "histories (<=40 ops) of grow / flush / flush-with-entry / entry-only on DirSection over an in-memory Write+Seek destination (optionally accepting only 1..300 bytes per write call) pre-filled with random bytes and positioned at 0, 1, mid, len or beyond len; file model checked after every op; non-trivial = starting position > 0 and a directory entry emitted after >= 2 flushes; distinct = hash of case",
             strategy: case_strategy().boxed(),
             max_shrink_iters: 4096,
             log_current: false,
